@@ -520,6 +520,10 @@ def _run(ctx, bt, scale=1):
             ctx.count("corpus-witnesses-run")
             ctx.evaluations += 1
             run_benchmark_case(ctx, bt, cs)
+        elif isinstance(cs, dict) and "child_spec" in cs:
+            ctx.count("corpus-witnesses-run")
+            ctx.evaluations += 1
+            child_runs(ctx, bt, [cs["child_spec"]])
     for _ in range(ctx.scale(12, 200) * scale):
         ctx.evaluations += 1
         try:
